@@ -19,7 +19,7 @@ def fixed_cases(tier):
 
 
 def n_generated(tier):
-    return 2500 if tier == "quick" else 40000
+    return 800 if tier == "quick" else 40000
 
 
 def strategy(tier):
